@@ -146,6 +146,15 @@ theorem runSeq_correct {g : Graph} {w : List Int} {maxPw : Int} {threads fuel pa
   obtain ⟨a, b, d, e, -, -⟩ := arcswap_correct hy this
   exact ⟨a, b, d, e⟩
 
+/-- NOT PROVED (stated for the record, the only item of the plan left open): a pass always
+ends — from every reachable state, running the remaining tasks one after another reaches a
+state in which every task is done, for some fuel.  (Every move lowers the cut, and between
+two moves a task only pops its `cut` stack; the driver's fuel was never exhausted in any
+run.)  `passes_terminate` above bounds the number of passes, not the steps inside one. -/
+def pass_terminates_statement : Prop :=
+  ∀ (c : Cfg) (p₀ : List Nat) (s : State), Hyp c p₀ → Reach c p₀ s →
+    ∃ fuel s' tr, finishPass c fuel s [] = some (s', tr)
+
 /-! ### non-vacuity -/
 
 /-- A checkable form of the hypotheses. -/
